@@ -85,6 +85,9 @@ def parts(tier):
             CH("odd_characters", "vflib.props.c03:scen_load", {"pool": "KEY_POOL_ODD", "styled": "k3", "options": True,
                                                                "templates": ["nested_object", "list_of_objects", "odd_values_nested"]},
                shards=8, timeout=170, path_timeout=30),
+            CH("symbol_prefixed_any_position", "vflib.props.c03:scen_load", {"pool": "KEY_POOL_PREFIXED", "styled": "any1",
+                                                                             "templates": ["flat_scalars", "nested_object", "list_of_objects"]},
+               shards=15, timeout=170, path_timeout=30),
         ]
     from vflib import progsym
     return [
